@@ -218,15 +218,22 @@ inline Number parseNumber(const char* s) {
   bool isDouble = exponent < -FloatTraits<float>::exponent_max ||
                   exponent > FloatTraits<float>::exponent_max ||
                   mantissa > FloatTraits<float>::mantissa_max;
-  if (isDouble) {
+  if (!isDouble) {
+    auto final_result = make_float(float(mantissa), exponent);
+    // mantissa * 10^exponent can exceed FLT_MAX (e.g. 9e38): retry as double
+    if (!isinf(final_result))
+      return Number(is_negative ? -final_result : final_result);
+  }
+  {
     auto final_result = make_float(double(mantissa), exponent);
     return Number(is_negative ? -final_result : final_result);
-  } else
-#endif
+  }
+#else
   {
     auto final_result = make_float(float(mantissa), exponent);
     return Number(is_negative ? -final_result : final_result);
   }
+#endif
 }
 
 template <typename T>
